@@ -93,7 +93,7 @@ SPEC = {
     "runners": [{
         "kind": "coqcases", "module": "CorrC07", "harness": "c07seq", "name": "seq",
         "corr": "Run/CorrC07.v (models of SafeMap / SyncMap and the reference map vs /repo/storage/safeMap.go, /repo/generic/syncmap.go)",
-        "rule": "SEQUENTIAL: each case = one operation sequence run on a fresh real SafeMap or SyncMap at key/value types int, string, pointer and interface (nil values and nil keys included; the instantiations must agree, else one case per instantiation), every call's result decoded to integers and compared in Coq with the reference map (monitor) and the model; snapshot non-aliasing of Keys/Values/CopyToMap/TranslateToMapOf checked on the Go side in both directions; a plain Go map is a second reference. Streams: corpus (Findings witnesses first), every word of a fixed length over a small alphabet (keys {zero-value/nil, 1}, values {zero/nil, 1}), structured random. distinct = by (object, instantiation, operation sequence); non-trivial = an observing call follows a mutating one.",
+        "rule": "SEQUENTIAL: each case = one operation sequence run on a fresh real SafeMap or SyncMap at key/value types int, string, pointer and interface (nil values and nil keys included) AND at value types that are not comparable with == ([]int, map[string]int, a struct holding a slice, func, an interface holding slices/maps; interface keys holding ints and strings; CompareAndSwap/CompareAndDelete, which are documented to need comparable values, are left out of the sequence there); the instantiations must agree, else one case per instantiation, every call's result decoded to integers and compared in Coq with the reference map (monitor) and the model; snapshot non-aliasing of Keys/Values/CopyToMap/TranslateToMapOf checked on the Go side in both directions; a plain Go map is a second reference. Streams: corpus (Findings witnesses first), every word of a fixed length over a small alphabet (keys {zero-value/nil, 1}, values {zero/nil, 1}), structured random. distinct = by (object, instantiation, operation sequence); non-trivial = an observing call follows a mutating one.",
     }, {
         "kind": "c07conc", "name": "conc",
         "corr": "free-running -race stress of /repo/storage/safeMap.go and /repo/generic/syncmap.go (harness/cmd/c07conc)",
